@@ -689,14 +689,6 @@ int xmpp_connect_client(xmpp_conn_t *conn,
     if (!domain)
         return XMPP_EMEM;
 
-    if (!conn->sm_state) {
-        conn->sm_state = strophe_alloc(conn->ctx, sizeof(*conn->sm_state));
-        if (!conn->sm_state)
-            goto err_mem;
-        memset(conn->sm_state, 0, sizeof(*conn->sm_state));
-        conn->sm_state->ctx = conn->ctx;
-    }
-
     if (altdomain != NULL)
         strophe_debug(conn->ctx, "conn", "Connecting via altdomain.");
 
@@ -2190,6 +2182,15 @@ static int _conn_connect(xmpp_conn_t *conn,
         return XMPP_EINVOP;
 
     _conn_reset(conn);
+
+    /* the event loop relies on the SM state for every connection type */
+    if (!conn->sm_state) {
+        conn->sm_state = strophe_alloc(conn->ctx, sizeof(*conn->sm_state));
+        if (!conn->sm_state)
+            return XMPP_EMEM;
+        memset(conn->sm_state, 0, sizeof(*conn->sm_state));
+        conn->sm_state->ctx = conn->ctx;
+    }
 
     conn->type = type;
     conn->domain = strophe_strdup(conn->ctx, domain);
